@@ -571,12 +571,27 @@ pub struct Guarded {
 }
 
 /// Decodes with panic, time and memory oracles. Err = violation (signature, message).
+/// CPU time consumed so far by the calling thread. The "terminates in time proportional to the input" verdict is
+/// taken on this clock, not on the wall clock: a worker that is descheduled for seconds on a busy machine has not
+/// decoded slowly (a wall-clock bound raised exactly that false alarm once in a 16-worker thorough run).
+fn thread_cpu_time() -> Duration {
+    let mut ts = libc::timespec { tv_sec: 0, tv_nsec: 0 };
+    // SAFETY: plain syscall writing into a local
+    let rc = unsafe { libc::clock_gettime(libc::CLOCK_THREAD_CPUTIME_ID, &mut ts) };
+    if rc != 0 {
+        return Duration::ZERO;
+    }
+    Duration::new(ts.tv_sec as u64, ts.tv_nsec as u32)
+}
+
 pub fn guarded_decode(frame: &[u8], cfg: &DecodeCfg) -> Guarded {
     let start_live = alloc::window_start();
     let t0 = Instant::now();
+    let c0 = thread_cpu_time();
     let prev = IN_GUARD.with(|g| g.replace(true));
     let r = std::panic::catch_unwind(std::panic::AssertUnwindSafe(|| decode_all(frame, cfg)));
     IN_GUARD.with(|g| g.set(prev));
+    let mut cpu = thread_cpu_time().saturating_sub(c0);
     let elapsed = t0.elapsed();
     let (peak, biggest) = alloc::window_end(start_live);
     let result = match r {
@@ -595,8 +610,16 @@ pub fn guarded_decode(frame: &[u8], cfg: &DecodeCfg) -> Guarded {
             let time_bound = Duration::from_millis(2000 + frame.len() as u64);
             if peak > mem_bound {
                 Err(("memory_amplification".to_string(), format!("decoding a {}-byte frame allocated {} bytes at peak (largest single request {} bytes); bound is 16 MiB + 512 x input", frame.len(), peak, biggest)))
-            } else if elapsed > time_bound {
-                Err(("slow_decode".to_string(), format!("decoding a {}-byte frame took {:?} (bound {:?})", frame.len(), elapsed, time_bound)))
+            } else if cpu > time_bound && {
+                // confirm: the same input must be slow again (kernel-side stalls are charged to the thread too)
+                let c1 = thread_cpu_time();
+                let prev = IN_GUARD.with(|g| g.replace(true));
+                let _ = std::panic::catch_unwind(std::panic::AssertUnwindSafe(|| decode_all(frame, cfg)));
+                IN_GUARD.with(|g| g.set(prev));
+                cpu = cpu.min(thread_cpu_time().saturating_sub(c1));
+                cpu > time_bound
+            } {
+                Err(("slow_decode".to_string(), format!("decoding a {}-byte frame took {:?} of CPU time, twice (bound {:?})", frame.len(), cpu, time_bound)))
             } else {
                 Ok(res)
             }
